@@ -63,17 +63,18 @@ class IdxPlugin:
             if o[0] == "c":
                 continue
             self.seen_sites.add(i.id)
-            if not ex.depends_on_assumption(o):
-                continue
             av = ex.eval(o, s.env)
-            if av is None or av[0] != "int":
+            if av is None or av[0] != "int" or explore.is_empty(av):
+                continue
+            dep = ex.tainted(o, s.env)
+            if not dep:
                 continue
             sv = explore.to_signed_ivs(av)
             lo, hi = sv[0][0], sv[-1][1]
             if lo >= d or hi < 0:
                 self.hits.append((i, "definite", "index %s of %s (extent %d)" % (explore.fmt(av), g.get("dname", gname), d), s))
                 ex.stop = True
-            elif hi >= d or lo < 0:
+            elif dep and (hi >= d or lo < 0):
                 self.hits.append((i, "maybe", "index %s of %s (extent %d)" % (explore.fmt(av), g.get("dname", gname), d), s))
             # struct element arrays: later dims follow; keep scanning
         return None
@@ -108,6 +109,7 @@ def _work(args):
                 pl = IdxPlugin(m, f, None)
                 try:
                     ex = Explorer(f, assume=assume, assume_def=adef, plugin=pl, keep_trail=True)
+                    ex.track_taint = True
                     ex.MAXSTEPS = 25000
                     ex.run()
                     status = "ok"
